@@ -57,7 +57,6 @@ structure SyncInv (c : DrawCfg) (d : Option Style) (s : Scr) (t : ATerm) : Prop 
   g3 : ∀ x y, s.cells.inRange x y → (s.cells.cells x y).lock = false → (s.cells.cells x y).lastMain ≠ 0 →
         shownWidth c s.w x (s.cells.cells x y).lastMain (s.cells.cells x y).lastComb > 1 → x + 1 < s.w →
         t.grid (x + 1) y = .cont
-  nochaos : t.chaos = false
 
 /-- which columns of row `y` the draw loop visits, starting at `x0` (the others are the right halves of
 wide runes); mirrors the `x += width - 1` skipping of tscreen.go:1067-1080 -/
